@@ -2,7 +2,7 @@
    every hash function), facts about the literals extracted from signer.go, injectivity of
    the word encoders, and binding of the digests as a reduction to an explicit collision. *)
 From Coq Require Import String List NArith ZArith Bool Lia ZifyN ZifyNat ZifyBool.
-From MevVerif Require Import lib.Bytes gen.Generated model.Eip712 proofs.Bytes_proofs.
+From MevVerif Require Import lib.Bytes lib.Keccak gen.Generated model.Eip712 proofs.Bytes_proofs.
 Import ListNotations.
 Open Scope N_scope.
 
@@ -271,6 +271,37 @@ Section C03.
   Qed.
 End C03.
 
+(* delimiting the claim: amounts in [2^64, 2^256) ARE hashed (and signed) by the node although
+   no uint64 member of the published schema can hold them *)
+Theorem bid_hash_outside_schema K b A :
+  parse_amount (b_amt b) = Some A -> (2 ^ 64 <= A < two256)%Z ->
+  (exists d, bid_hash K b = Ok d) /\
+  forall bn ds de, well_typed (s_members bid_schema) (bid_values (b_tx b) (Z.to_N A) bn ds de) = false.
+Proof.
+  intros P [Hlo Hhi]. split.
+  - unfold bid_hash. rewrite P. unfold amount_out_of_range.
+    assert (0 < 2 ^ 64)%Z by (apply Z.pow_pos_nonneg; lia).
+    destruct (Z.ltb_spec A 0); [lia|]. destruct (Z.leb_spec two256 A); [lia|]. cbn [orb]. eexists. reflexivity.
+  - intros bn ds de. cbn [well_typed s_members bid_schema bid_members bid_values m_type value_has_type].
+    assert (E : (Z.to_N A <? 2 ^ 64) = false).
+    { apply N.ltb_ge. change (2 ^ 64) with (Z.to_N (2 ^ 64)%Z). apply Z2N.inj_le; lia. }
+    rewrite E. cbn [andb]. reflexivity.
+Qed.
+
+(* The two Solidity-sourced vectors of TestHashing (pkg/signer/preconfsigner/signer_test.go)
+   pin the GENERIC specification, evaluated with the executable Keccak-256, to values that
+   come from the settlement contract. *)
+Example contract_vector_bid :
+  hex (eip712_bid keccak256 (bos "0xkartik") 200 3000 10 30) =
+  bos "a837b0c680d4b9b11011ac6225670498d845e65f1dc340b00694d74a6ca0a049".
+Proof. vm_compute. reflexivity. Qed.
+Example contract_vector_commitment :
+  hex (eip712_commitment keccak256 (bos "0xkartik") 2 2 10 20
+         (x "a0327970258c49b922969af74d60299a648c50f69a2d98d6ab43f32f64ac2100")
+         (x "876c1216c232828be9fabb14981c8788cebdf6ed66e563c4a2ccc82a577d052543207aeeb158a32d8977736797ae250c63ef69a82cd85b727da21e20d030fb311b")) =
+  bos "54c118e537dd7cf63b5388a5fc8322f0286a978265d0338b108a8ca9d155dccc".
+Proof. vm_compute. reflexivity. Qed.
+
 (* hex.EncodeToString renders in lowercase: every character is 0-9 or a-f *)
 Lemma hex_digit_lower n : n < 16 ->
   (48 <= hex_digit n <= 57) \/ (97 <= hex_digit n <= 102).
@@ -297,18 +328,35 @@ Proof.
   unfold u64, u63, c03_example_bid; cbn [b_bn b_ds b_de]. lia.
 Qed.
 
-(* --- binding: equal digests give equal fields or an explicit collision ------------------ *)
+(* --- binding: equal digests give equal fields or a NAMED collision ----------------------- *)
+(* Auditor's observation (harness/audit): a bare "exists x y, x <> y /\ K x = K y" is TRUE of
+   every K whose images have one length (pigeonhole; Keccak-256 included), so a binding
+   theorem ending in that disjunct says nothing at the real hash.  The disjunct below is
+   therefore [collision_among K ps] with ps the explicit, finite list of position-wise
+   pre-image pairs of the two computations: the colliding strings are exhibited, and for the
+   real hash the disjunct is a concrete Keccak-256 collision between two given strings. *)
 Section Binding.
   Variable K : bytes -> bytes.
 
-  (* two different byte strings with one image under K *)
+  (* the anonymous form, kept for the corollaries only *)
   Definition collision : Prop := exists x y : bytes, x <> y /\ K x = K y.
 
-  Lemma K_inj_or_collision a b : K a = K b -> a = b \/ collision.
+  Lemma collision_among_collision ps : collision_among K ps -> collision.
+  Proof. intros (x & y & _ & H). exists x, y. exact H. Qed.
+
+  Lemma collision_among_incl ps qs : incl ps qs -> collision_among K ps -> collision_among K qs.
+  Proof. intros I (x & y & Hin & H). exists x, y. split; [apply I, Hin|exact H]. Qed.
+
+  Lemma K_inj_or_named ps a b : In (a, b) ps -> K a = K b -> a = b \/ collision_among K ps.
   Proof.
-    intros H. destruct (list_eq_dec N.eq_dec a b) as [E|NE]; [left; exact E|].
-    right. exists a, b. split; assumption.
+    intros Hin H. destruct (list_eq_dec N.eq_dec a b) as [E|NE]; [left; exact E|].
+    right. exists a, b. repeat split; assumption.
   Qed.
+
+  Lemma bid_tail_raw b A : bid_hash_tail K b A = K (bid_raw K b A).
+  Proof. reflexivity. Qed.
+  Lemma commitment_tail_raw b A : commitment_hash_tail K b A = K (commitment_raw K b A).
+  Proof. reflexivity. Qed.
 
   Lemma app_inv_len_l {A} (a b c d : list A) :
     length a = length c -> a ++ b = c ++ d -> a = c /\ b = d.
@@ -343,22 +391,35 @@ Section Binding.
     length (u256bytes a ++ u256bytes b ++ u256bytes c ++ u256bytes d) = 128%nat.
   Proof. rewrite !app_length, !u256bytes_length. reflexivity. Qed.
 
+  Definition bid_pairs_at (b1 : bid) (A1 : Z) (b2 : bid) (A2 : Z) : list (bytes * bytes) :=
+    [ (bid_raw K b1 A1, bid_raw K b2 A2); (bid_data K b1 A1, bid_data K b2 A2); (b_tx b1, b_tx b2) ].
+  Definition commitment_pairs_at (b1 : bid) (A1 : Z) (b2 : bid) (A2 : Z) : list (bytes * bytes) :=
+    [ (commitment_raw K b1 A1, commitment_raw K b2 A2); (commitment_data K b1 A1, commitment_data K b2 A2);
+      (b_tx b1, b_tx b2); (hex (obytes (b_dig b1)), hex (obytes (b_dig b2)));
+      (hex (obytes (b_sig b1)), hex (obytes (b_sig b2))) ].
+
+  Lemma parsed_amount b A : parse_amount (b_amt b) = Some A -> bid_amount b = A.
+  Proof. unfold bid_amount. intros ->. reflexivity. Qed.
+
   (* what the bid digest binds: tx bytes, the amount modulo 2^256, the three int64 words *)
   Lemma bid_tail_binding b1 A1 b2 A2 :
     bid_hash_tail K b1 A1 = bid_hash_tail K b2 A2 ->
     (b_tx b1 = b_tx b2 /\ u256bytes A1 = u256bytes A2 /\ u256bytes (b_bn b1) = u256bytes (b_bn b2) /\
      u256bytes (b_ds b1) = u256bytes (b_ds b2) /\ u256bytes (b_de b1) = u256bytes (b_de b2))
-    \/ collision.
+    \/ collision_among K (bid_pairs_at b1 A1 b2 A2).
   Proof.
-    unfold bid_hash_tail. intros H.
-    apply K_inj_or_collision in H. destruct H as [H|C]; [|right; exact C].
-    apply app_inv_head in H. apply app_inv_head in H.
-    apply K_inj_or_collision in H. destruct H as [H|C]; [|right; exact C].
-    rewrite <- !app_assoc in H.
+    rewrite !bid_tail_raw. intros H.
+    apply (K_inj_or_named (bid_pairs_at b1 A1 b2 A2)) in H; [|left; reflexivity].
+    destruct H as [H|C]; [|right; exact C].
+    unfold bid_raw in H. apply app_inv_head in H. apply app_inv_head in H.
+    apply (K_inj_or_named (bid_pairs_at b1 A1 b2 A2)) in H; [|right; left; reflexivity].
+    destruct H as [H|C]; [|right; exact C].
+    unfold bid_data in H. rewrite <- !app_assoc in H.
     apply app_inv_head in H.
     apply app_inv_len_r in H; [|rewrite !words4_length; reflexivity].
     destruct H as [Htx Hw].
-    apply K_inj_or_collision in Htx. destruct Htx as [Htx|C]; [|right; exact C].
+    apply (K_inj_or_named (bid_pairs_at b1 A1 b2 A2)) in Htx; [|right; right; left; reflexivity].
+    destruct Htx as [Htx|C]; [|right; exact C].
     apply words4_inv in Hw. left. tauto.
   Qed.
 
@@ -368,9 +429,10 @@ Section Binding.
     parse_amount (b_amt b1) = Some A1 -> parse_amount (b_amt b2) = Some A2 ->
     bid_hash K b1 = Ok d -> bid_hash K b2 = Ok d ->
     (b_tx b1 = b_tx b2 /\ A1 = A2 /\ b_bn b1 = b_bn b2 /\ b_ds b1 = b_ds b2 /\ b_de b1 = b_de b2)
-    \/ collision.
+    \/ collision_among K (bid_preimage_pairs K b1 b2).
   Proof.
     intros I1 I2 I3 I4 I5 I6 P1 P2 H1 H2.
+    unfold bid_preimage_pairs. rewrite (parsed_amount b1 A1 P1), (parsed_amount b2 A2 P2).
     unfold bid_hash in H1, H2. rewrite P1 in H1. rewrite P2 in H2.
     destruct (amount_out_of_range A1) eqn:R1; [discriminate|].
     destruct (amount_out_of_range A2) eqn:R2; [discriminate|].
@@ -392,9 +454,11 @@ Section Binding.
   Theorem bid_hash_v0_binding_mod b1 b2 A1 A2 d :
     parse_amount (b_amt b1) = Some A1 -> parse_amount (b_amt b2) = Some A2 ->
     bid_hash_v0 K b1 = Ok d -> bid_hash_v0 K b2 = Ok d ->
-    (A1 mod two256 = A2 mod two256)%Z \/ collision.
+    (A1 mod two256 = A2 mod two256)%Z \/ collision_among K (bid_preimage_pairs K b1 b2).
   Proof.
-    intros P1 P2 H1 H2. unfold bid_hash_v0 in H1, H2. rewrite P1 in H1. rewrite P2 in H2.
+    intros P1 P2 H1 H2.
+    unfold bid_preimage_pairs. rewrite (parsed_amount b1 A1 P1), (parsed_amount b2 A2 P2).
+    unfold bid_hash_v0 in H1, H2. rewrite P1 in H1. rewrite P2 in H2.
     injection H1 as H1. injection H2 as H2.
     destruct (bid_tail_binding b1 A1 b2 A2) as [(_ & HA & _)|C]; [congruence| |right; exact C].
     left. apply u256bytes_mod, HA.
@@ -413,22 +477,28 @@ Section Binding.
       (b_tx b1 = b_tx b2 /\ u256bytes A1 = u256bytes A2 /\ u256bytes (b_bn b1) = u256bytes (b_bn b2) /\
        u256bytes (b_ds b1) = u256bytes (b_ds b2) /\ u256bytes (b_de b1) = u256bytes (b_de b2) /\
        obytes (b_dig b1) = obytes (b_dig b2) /\ obytes (b_sig b1) = obytes (b_sig b2))
-      \/ collision.
+      \/ collision_among K (commitment_pairs_at b1 A1 b2 A2).
     Proof.
-      intros W1 W2 W3 W4. unfold commitment_hash_tail. intros H.
-      apply K_inj_or_collision in H. destruct H as [H|C]; [|right; exact C].
-      apply app_inv_head in H. apply app_inv_head in H.
-      apply K_inj_or_collision in H. destruct H as [H|C]; [|right; exact C].
-      rewrite <- !app_assoc in H.
+      intros W1 W2 W3 W4. rewrite !commitment_tail_raw. intros H.
+      set (ps := commitment_pairs_at b1 A1 b2 A2).
+      apply (K_inj_or_named ps) in H; [|left; reflexivity].
+      destruct H as [H|C]; [|right; exact C].
+      unfold commitment_raw in H. apply app_inv_head in H. apply app_inv_head in H.
+      apply (K_inj_or_named ps) in H; [|right; left; reflexivity].
+      destruct H as [H|C]; [|right; exact C].
+      unfold commitment_data in H. rewrite <- !app_assoc in H.
       apply app_inv_head in H.
       apply app_inv_len_l in H; [|rewrite !K_len; reflexivity]. destruct H as [Htx H].
       rewrite !app_assoc in H.
       apply app_inv_len_r in H; [|rewrite !K_len; reflexivity]. destruct H as [H Hs].
       apply app_inv_len_r in H; [|rewrite !K_len; reflexivity]. destruct H as [Hw Hd].
       rewrite <- !app_assoc in Hw. apply words4_inv in Hw.
-      apply K_inj_or_collision in Htx. destruct Htx as [Htx|C]; [|right; exact C].
-      apply K_inj_or_collision in Hd. destruct Hd as [Hd|C]; [|right; exact C].
-      apply K_inj_or_collision in Hs. destruct Hs as [Hs|C]; [|right; exact C].
+      apply (K_inj_or_named ps) in Htx; [|right; right; left; reflexivity].
+      destruct Htx as [Htx|C]; [|right; exact C].
+      apply (K_inj_or_named ps) in Hd; [|right; right; right; left; reflexivity].
+      destruct Hd as [Hd|C]; [|right; exact C].
+      apply (K_inj_or_named ps) in Hs; [|right; right; right; right; left; reflexivity].
+      destruct Hs as [Hs|C]; [|right; exact C].
       apply hex_inj in Hd; [|assumption|assumption].
       apply hex_inj in Hs; [|assumption|assumption].
       left. tauto.
@@ -444,9 +514,10 @@ Section Binding.
       commitment_hash K c1 = Ok d -> commitment_hash K c2 = Ok d ->
       (b_tx b1 = b_tx b2 /\ A1 = A2 /\ b_bn b1 = b_bn b2 /\ b_ds b1 = b_ds b2 /\ b_de b1 = b_de b2 /\
        obytes (b_dig b1) = obytes (b_dig b2) /\ obytes (b_sig b1) = obytes (b_sig b2))
-      \/ collision.
+      \/ collision_among K (commitment_preimage_pairs K b1 b2).
     Proof.
       intros B1 B2 I1 I2 I3 I4 I5 I6 W1 W2 W3 W4 P1 P2 H1 H2.
+      unfold commitment_preimage_pairs. rewrite (parsed_amount b1 A1 P1), (parsed_amount b2 A2 P2).
       unfold commitment_hash in H1, H2. rewrite B1, P1 in H1. rewrite B2, P2 in H2.
       destruct (amount_out_of_range A1) eqn:R1; [discriminate|].
       destruct (amount_out_of_range A2) eqn:R2; [discriminate|].
@@ -464,6 +535,33 @@ Section Binding.
     Qed.
   End FixedLength.
 End Binding.
+
+(* The auditor's observation as a lemma: the anonymous disjunct holds for EVERY function with
+   zero-length images (and, by pigeonhole, for every fixed length) -- hence useless. *)
+Lemma anonymous_collision_is_free (K : bytes -> bytes) :
+  (forall m, length (K m) = 0%nat) -> collision K.
+Proof.
+  intros L. exists [], [0]. split; [discriminate|].
+  pose proof (L []) as H1. pose proof (L [0]) as H2.
+  destruct (K []); [|discriminate]. destruct (K [0]); [|discriminate]. reflexivity.
+Qed.
+
+(* Non-vacuity of the reduction: for the constant hash the two example bids below differ in the
+   tx string, have one digest, and the NAMED disjunct holds -- the pair of tx strings itself is
+   the exhibited collision. *)
+Definition Kconst : bytes -> bytes := fun _ => [].
+Definition nv_b1 : bid := {| b_tx := bos "aa"; b_amt := bos "5"; b_bn := 2; b_ds := 10; b_de := 20;
+                            b_dig := None; b_sig := None |}.
+Definition nv_b2 : bid := {| b_tx := bos "bb"; b_amt := bos "5"; b_bn := 2; b_ds := 10; b_de := 20;
+                            b_dig := None; b_sig := None |}.
+Example named_collision_inhabited :
+  bid_hash Kconst nv_b1 = bid_hash Kconst nv_b2 /\ b_tx nv_b1 <> b_tx nv_b2 /\
+  collision_among Kconst (bid_preimage_pairs Kconst nv_b1 nv_b2).
+Proof.
+  split; [reflexivity|]. split; [vm_compute; discriminate|].
+  exists (b_tx nv_b1), (b_tx nv_b2). split; [right; right; left; reflexivity|].
+  split; [vm_compute; discriminate|reflexivity].
+Qed.
 
 (* --- the pre-fix encoder did not bind the amount (regression lemma for 7ab670a) ---------- *)
 Definition refute_b1 : bid :=
